@@ -280,6 +280,108 @@ def print_program(prog, shadows=None, so=None):
     return "\n".join(out) + "\n"
 
 
+def _mentions_global(node):
+    if isinstance(node, tuple):
+        if len(node) >= 2 and node[0] in ("var", "set") and isinstance(node[1], str) and node[1].startswith("g_"):
+            return True
+        return any(_mentions_global(x) for x in node)
+    if isinstance(node, list):
+        return any(_mentions_global(x) for x in node)
+    return False
+
+
+def _type_names(t, acc):
+    if isinstance(t, tuple):
+        if t[0] in ("struct", "enum", "union"):
+            acc.add(t[1])
+        for x in t[1:]:
+            if isinstance(x, (tuple, list)):
+                for y in (x if isinstance(x, (list,)) or (isinstance(x, tuple) and x and isinstance(x[0], (tuple, str)) and t[0] in ("tuple", "fn")) else [x]):
+                    _type_names(y, acc)
+    return acc
+
+
+def split_program(prog, k, allow_fnvalues=False):
+    """Two-file rendering of the same program: all type definitions and the first k functions that mention no global
+    variable go to module m.nano (pub), the rest stays in the main file, which imports every moved name.
+    Returns (main_text, module_text, number of functions moved) or None if nothing can be moved."""
+    def has_kind(t, kinds):
+        if isinstance(t, tuple):
+            if t[0] in kinds:
+                return True
+            return any(has_kind(x, kinds) for x in t[1:] if isinstance(x, (tuple, list)))
+        if isinstance(t, list):
+            return any(has_kind(x, kinds) for x in t)
+        return False
+
+    def has_node(node, kinds):
+        if isinstance(node, tuple):
+            if node and node[0] in kinds:
+                return True
+            return any(has_node(x, kinds) for x in node)
+        if isinstance(node, list):
+            return any(has_node(x, kinds) for x in node)
+        return False
+
+    def callees(node, acc):
+        if isinstance(node, tuple):
+            if len(node) >= 2 and node[0] == "call" and isinstance(node[1], str):
+                acc.add(node[1])
+            for x in node:
+                callees(x, acc)
+        elif isinstance(node, list):
+            for x in node:
+                callees(x, acc)
+        return acc
+
+    def fnrefs(node, acc):
+        if isinstance(node, tuple):
+            if len(node) == 2 and node[0] == "fnref":
+                acc.add(node[1])
+            for x in node:
+                fnrefs(x, acc)
+        elif isinstance(node, list):
+            for x in node:
+                fnrefs(x, acc)
+        return acc
+
+    # open finding native-fnref-to-imported-function: a function used as a value anywhere stays in the main file
+    referenced = set()
+    for f in prog["funcs"]:
+        fnrefs(f["body"], referenced)
+    moved = []
+    moved_names = set()
+    for f in prog["funcs"]:
+        if len(moved) >= k:
+            break
+        if f["name"] == "main" or _mentions_global(f["body"]) or f["name"] in referenced:
+            continue
+        if not (callees(f["body"], set()) <= (moved_names | {f["name"]})):
+            continue
+        sig = [pt for _p, pt in f["params"]] + [f["ret"]]
+        # observed, not a listed property: a module function with an enum- or union-typed parameter / result is refused by
+        # the front end ('expects struct, got enum'); such functions stay in the main file
+        if any(has_kind(t, ("enum", "union")) for t in sig):
+            continue
+        if not allow_fnvalues and (has_node(f["body"], ("fnref", "callv")) or any(has_kind(t, ("fn",)) for t in sig)):
+            continue
+        moved.append(f)
+        moved_names.add(f["name"])
+    if not moved and not (prog["structs"] or prog["enums"] or prog["unions"]):
+        return None
+    modp = dict(prog, globals=[], funcs=moved)
+    mod = print_program(modp)
+    lines = []
+    for l in mod.split("\n"):
+        if l.startswith(("struct ", "enum ", "union ", "fn ")):
+            l = "pub " + l
+        lines.append(l)
+    names = [n for n, _ in prog["structs"]] + [n for n, _ in prog["enums"]] + [n for n, _ in prog["unions"]] + [f["name"] for f in moved]
+    mainp = dict(prog, structs=[], enums=[], unions=[], funcs=[f for f in prog["funcs"] if f not in moved])
+    head = ("from \"m.nano\" import %s\n" % ", ".join(names)) if names else ""
+    return head + print_program(mainp), "\n".join(lines), len(moved)
+
+
 # ----------------------------------------------------------------------------- generator state
 class Gen:
     def __init__(self, draw, features, size):
@@ -400,7 +502,7 @@ def lit_str(g):
 
 
 def lit_float(g):
-    return ("float", g.pick([0.0, 1.0, 0.5, 2.5, 3.25, 10.0, 100.125, 1.5, 7.75, 0.125]))
+    return ("float", g.pick([0.0, 1.0, 0.5, 2.5, 3.25, 10.0, 100.125, 1.5, 7.75, 0.125, 4.0, 1234567.891, 0.123456789, 3.141592653589793, 1000000.0]))
 
 
 # ----------------------------------------------------------------------------- expressions
@@ -808,7 +910,11 @@ def gen_float(g, sc, d):
         if vs and g.b():
             return ("var", g.pick(vs))
         return lit_float(g)
-    k = g.i(0, 5)
+    k = g.i(0, 6)
+    if k == 6:
+        g.use("float_div")
+        a = gen_float(g, sc, d - 1)
+        return ("bin", "/", a, ("float", g.pick([4.0, 0.5, 2.5, 10.0, 3.0])), g.style())
     if k <= 2:
         g.use("float_arith")
         a, b = gen_args(g, sc, ["float", "float"], d - 1)
